@@ -19,6 +19,10 @@ CLAIMS = {
  "C14": ("proof", "Power-loss model (ghost durable image per file, T-mmap): crash invariants proved at every program point of segment.append, sync and removeGTE: whichever header value reaches the disk, everything it exposes is durable and equal to memory; sync writes the header only after the data flush; after a completed sync/removeGTE the durable header equals the in-memory count. CommitN: bounded stand-in. Recovery (openSegments) not yet under contract.", "4 C14"),
  "C17": ("proof", "Leader-stability clause proved on onVoteRequest (a non-transfer request from a node other than the known leader is refused and changes nothing) and on the append handler (a stale-term request changes nothing). The liveness sentence of C17 is not decidable by contracts (DESIGN section 5).", "4 C17"),
  "C19": ("proof", "Ordering clauses proved as postconditions of the vote, append and timeout-now handlers and the config/commit helpers: term and commit index never decrease; snapshot index <= commit index <= last log index; log well-formedness (LogWF) preserved. Other handlers are being added.", "4 C19"),
+ "C03": ("proof", "onApply proved with loop invariants: the FSM index advances by exactly one per applied entry, updates are passed to the user FSM in index order without gaps and at most once, non-update entries are skipped, the three internal asserts are unreachable given the channel invariant on fsmApply messages (stated as named preconditions PA-ch.*); onRestoreReq sets the applied index/term to the restored snapshot's label or leaves them unchanged on failure. Agreement across nodes composes C02+C04 (assumed); FIFO order between the raft and FSM goroutines is T-go.", "4 C03"),
+ "C09": ("proof", "Proved: a snapshot reply carries exactly the applied index/term (no uncommitted update); onSnapshotTaken compacts only up to the new snapshot index and, on a leader, only up to the match index of every replication; retained snapshots are only removed when older and unpinned; open() validates the data size against the label. Races between goroutines on log memory are outside per-call contracts.", "4 C09"),
+ "C10": ("proof", "Crash-Hoare obligations on the ghost file system at every program point of value.set / setTerm / setVotedFor (old or new pair, exactly one file), snapshots.new / done / applyRetain (a label is published only after its data file is complete; the latest snapshot is never removed) and, under power loss, of the segment operations (C14). Recovery functions openStorage/openValue/Open are not yet under contract; the install-snapshot window (D9) is not yet checked.", "4 C10"),
+ "C12": ("proof", "Proved: the index and term of a snapshot label are the values the FSM produced together with the state; done() writes exactly the label given to new(); open()/openSnapshots read back the published label. The membership clause fails on the current code (known finding D10).", "4 C12"),
  "C15": ("proof", "Decided part: for every function under contract (all properties) the verifier proves that no assertion, explicit panic (other than a storage-error OpError), nil dereference, index/slice bound violation, failed type assertion, nil-map write or division by zero is reachable under the function's precondition, and that every callee precondition holds at each call site. Data races, deadlock, shutdown termination and task-completion-exactly-once across goroutines are outside per-call contracts (DESIGN section 5).", "4 C15"),
  "C18": ("proof", "Byte-exact contracts over ghost byte streams: every primitive (uint64/32/8, bool, bytes, string), log entries, the fixed-width requests (req, vote, append, identity), responses (plain and append) are proved to write exactly their layout at the current stream position, to read back the same fields from the same positions (round trip = encoder and decoder contracts share the layout predicate), to consume exactly the bytes produced, and to return an error exactly when the stream ends early. Config/Node/Info/task-response encodings, installSnap requests and the value-file name parsing are not yet under contract (listed).", "4 C18"),
  "C20": ("proof", "Proved: the identity arm of replyRPC answers success iff cluster and node id both match and runs no handler; getConn returns a connection only from the pool or after an identity handshake that answered success for (pool.cid, pool.nid) (pool invariant over the conns slice; network exchange trusted), getConnPool builds pools with (r.cid, nid); SetIdentity never reports success for a mismatching identity and never overwrites a set identity. Listener-side enforcement and lock-file exclusivity are assumptions (T-fs).", "4 C20"),
